@@ -767,6 +767,11 @@ func genEdges(a *Args, rng *Rng) []caseSpec {
 		"meta-emptyver":   func(b *hb) srcSpec { return dirSrc("pkg", ef(bin("foo"), 0o755, b.malformed("emptyver", "foo", ""))) },
 		"meta-emptyname":  func(b *hb) srcSpec { return dirSrc("pkg", ef(bin("foo"), 0o644, b.malformed("emptyname", "", "1.0.0"))) },
 		"meta-emptycaps":  func(b *hb) srcSpec { return fileSrc(bin("foo"), 0o755, b.malformed("emptycaps", "foo", "1.0.0")) },
+		"meta-nourl":      func(b *hb) srcSpec { return fileSrc(bin("foo"), 0o755, b.malformed("nourl", "foo", "1.0.0")) },
+		"meta-nourl-dir":  func(b *hb) srcSpec { return dirSrc("pkg", ef(bin("foo"), 0o644, b.malformed("nourl", "foo", "1.0.0")), ef("zz", 0o644, b.data("z", 1))) },
+		"meta-nodesc":     func(b *hb) srcSpec { return fileSrc(bin("foo"), 0o755, b.malformed("nodesc", "foo", "1.0.0")) },
+		"meta-badcontract": func(b *hb) srcSpec { return fileSrc(bin("foo"), 0o755, b.malformed("badcontract", "foo", "1.0.0")) },
+		"meta-multicontract": func(b *hb) srcSpec { return fileSrc(bin("foo"), 0o755, b.cid(contentSpec{Kind: "ok", Variant: "multicontract", Name: "foo", Version: "1.0.0"})) },
 		"meta-nocontract": func(b *hb) srcSpec { return fileSrc(bin("foo"), 0o755, b.malformed("nocontract", "foo", "1.0.0")) },
 		"meta-dupname":    func(b *hb) srcSpec { return fileSrc(bin("foo"), 0o755, b.cid(contentSpec{Kind: "ok", Variant: "dupname", Name: "foo", Version: "1.0.0"})) },
 		"meta-dupname-dir": func(b *hb) srcSpec {
